@@ -19,3 +19,59 @@ package minter
 //@   ensures quorum: result <==> ((blockchain.haltHeight > 0 && height >= blockchain.haltHeight) || (m != nil && 3*sup > 2*blockchain.totalPower.val))
 //@   loop 0 invariant bounds: -1 <= rangeindex && rangeindex < len(halts.List) || (rangeindex == -1 && len(halts.List) == 0)
 //@   loop 0 invariant sum: totalVotedPower.val == old(haltSupport(halts.List, rangeindex + 1, blockchain.validatorsPowers))
+
+//@ # ---- competing proposals: the best supported one wins (first among equals), and only with > 2/3
+//@ spec updMax(ms []*update.Model, n int, pw map[types.Pubkey]*big.Int) int = n <= 0 ? 0 : max(updMax(ms, n-1, pw), voteSupport(ms[n-1].Votes, len(ms[n-1].Votes), pw))
+//@ spec updWinner(ms []*update.Model, n int, pw map[types.Pubkey]*big.Int) string = n <= 0 ? "" : (voteSupport(ms[n-1].Votes, len(ms[n-1].Votes), pw) > updMax(ms, n-1, pw) ? ms[n-1].Version : updWinner(ms, n-1, pw))
+//@ spec comMax(ms []*commission.Model, n int, pw map[types.Pubkey]*big.Int) int = n <= 0 ? 0 : max(comMax(ms, n-1, pw), voteSupport(ms[n-1].Votes, len(ms[n-1].Votes), pw))
+//@ spec comWinner(ms []*commission.Model, n int, pw map[types.Pubkey]*big.Int) string = n <= 0 ? "" : (voteSupport(ms[n-1].Votes, len(ms[n-1].Votes), pw) > comMax(ms, n-1, pw) ? ms[n-1].Price : comWinner(ms, n-1, pw))
+
+//@ func (*Blockchain).isUpdateNetworkBlockV2
+//@   serves C20
+//@   let vs = updateVotes(blockchain.stateDeliver.Updates, height)
+//@   let pw = blockchain.validatorsPowers
+//@   requires blockchain != nil && blockchain.stateDeliver != nil && blockchain.stateDeliver.Updates != nil
+//@   requires blockchain.totalPower != nil && blockchain.totalPower.val >= 1
+//@   requires forall k types.Pubkey :: k in blockchain.validatorsPowers ==> blockchain.validatorsPowers[k] != nil && blockchain.validatorsPowers[k].val >= 0
+//@   ensures quorum: result1 <==> (len(vs) > 0 && 3*old(updMax(vs, len(vs), pw)) > 2*blockchain.totalPower.val)
+//@   ensures winner: result1 ==> result0 == old(updWinner(vs, len(vs), pw))
+//@   loop 0 invariant bounds: -1 <= rangeindex && rangeindex < len(versions) && len(versions) > 0
+//@   loop 0 invariant max: maxVotedPower != nil && maxVotedPower.val == old(updMax(versions, rangeindex + 1, pw))
+//@   loop 0 invariant win: version == old(updWinner(versions, rangeindex + 1, pw))
+//@   loop 1 invariant bounds: -1 <= rangeindex && (rangeindex < len(v.Votes) || (rangeindex == -1 && len(v.Votes) == 0))
+//@   loop 1 invariant sum: totalVotedPower.val == old(voteSupport(v.Votes, rangeindex + 1, pw))
+//@   loop 1 invariant keepmax: maxVotedPower.val == old(updMax(versions, loop0_rangeindex + 1, pw))
+
+//@ func (*Blockchain).isUpdateCommissionsBlockV2
+//@   serves C20
+//@   let vs = commissionVotes(blockchain.stateDeliver.Commission, height)
+//@   let pw = blockchain.validatorsPowers
+//@   requires blockchain != nil && blockchain.stateDeliver != nil && blockchain.stateDeliver.Commission != nil
+//@   requires blockchain.totalPower != nil && blockchain.totalPower.val >= 1
+//@   requires forall k types.Pubkey :: k in blockchain.validatorsPowers ==> blockchain.validatorsPowers[k] != nil && blockchain.validatorsPowers[k].val >= 0
+//@   ensures quorum: len(result) > 0 ==> (len(vs) > 0 && 3*old(comMax(vs, len(vs), pw)) > 2*blockchain.totalPower.val)
+//@   ensures noquorum: !(len(vs) > 0 && 3*old(comMax(vs, len(vs), pw)) > 2*blockchain.totalPower.val) ==> result == nil
+//@   loop 0 invariant bounds: -1 <= rangeindex && rangeindex < len(commissions) && len(commissions) > 0
+//@   loop 0 invariant max: maxVotedPower != nil && maxVotedPower.val == old(comMax(commissions, rangeindex + 1, pw))
+//@   loop 0 invariant win: price == old(comWinner(commissions, rangeindex + 1, pw))
+//@   loop 1 invariant bounds: -1 <= rangeindex && (rangeindex < len(commission.Votes) || (rangeindex == -1 && len(commission.Votes) == 0))
+//@   loop 1 invariant sum: totalVotedPower.val == old(voteSupport(commission.Votes, rangeindex + 1, pw))
+//@   loop 1 invariant keepmax: maxVotedPower.val == old(comMax(commissions, loop0_rangeindex + 1, pw))
+
+//@ # ---------------------------------------------------------------- voting powers of the block (C20, C19)
+//@ # only validators recorded as present (and not to be dropped) get voting power; total = sum of those (or 1)
+//@ spec presentPower(vals []*validators2.Validator, n int, b *Blockchain) int = n <= 0 ? 0 : presentPower(vals, n-1, b) + (isPresent(vals[n-1], b) ? vals[n-1].totalStake.val : 0)
+//@ spec isPresent(v *validators2.Validator, b *Blockchain) bool = !v.toDrop && b.validatorsStatuses[v.tmAddress] == ValidatorPresent
+
+//@ func (*Blockchain).calculatePowers
+//@   serves C20 C19
+//@   requires blockchain != nil
+//@   requires forall i int :: 0 <= i && i < len(vals) ==> vals[i] != nil && vals[i].totalStake != nil && vals[i].totalStake.val >= 0
+//@   ensures total: blockchain.totalPower != nil && blockchain.totalPower.val == (old(presentPower(vals, len(vals), blockchain)) == 0 ? 1 : old(presentPower(vals, len(vals), blockchain)))
+//@   requires distinctkeys: forall i int, j int :: 0 <= i && i < j && j < len(vals) ==> vals[i].PubKey != vals[j].PubKey
+//@   ensures onlypresent: forall i int :: 0 <= i && i < len(vals) ==> ((vals[i].PubKey in blockchain.validatorsPowers) <==> old(isPresent(vals[i], blockchain)))
+//@   ensures power: forall i int :: 0 <= i && i < len(vals) && old(isPresent(vals[i], blockchain)) ==> blockchain.validatorsPowers[vals[i].PubKey] != nil && blockchain.validatorsPowers[vals[i].PubKey].val == old(vals[i].totalStake.val)
+//@   loop 0 invariant bounds: -1 <= rangeindex && (rangeindex < len(vals) || (rangeindex == -1 && len(vals) == 0))
+//@   loop 0 invariant sum: blockchain.totalPower != nil && fresh(blockchain.totalPower) && blockchain.totalPower.val == old(presentPower(vals, rangeindex + 1, blockchain))
+//@   loop 0 invariant dom: fresh(blockchain.validatorsPowers) && forall i int :: 0 <= i && i < len(vals) ==> ((vals[i].PubKey in blockchain.validatorsPowers) <==> (i <= rangeindex && old(isPresent(vals[i], blockchain))))
+//@   loop 0 invariant pow: forall i int :: 0 <= i && i <= rangeindex && old(isPresent(vals[i], blockchain)) ==> blockchain.validatorsPowers[vals[i].PubKey] != nil && fresh(blockchain.validatorsPowers[vals[i].PubKey]) && blockchain.validatorsPowers[vals[i].PubKey] != blockchain.totalPower && blockchain.validatorsPowers[vals[i].PubKey].val == old(vals[i].totalStake.val)
